@@ -11,7 +11,12 @@ FAMS = [
     ("nested", "[numa] pack:2 [numa] core:2 pu:2"),
     ("numa2", "node:2 core:2 pu:2"),
     ("numa3p", "node:3(indexes=2,0,1) core:2 pu:1"),      # Group level below the root, NUMA os_index != logical_index
+    ("mscache", "pack:2 [numa(memorysidecachesize=256MB)] core:2 pu:1"),     # memory-side caches (kept: see FAM_EXTRA)
+    ("offline", "XML"),        # pack:2 core:2 pu:2 with PUs 1 and 6 offline: complete cpusets larger than cpusets (c08.make_offline_xml)
+    ("disdrop", "XML"),        # a nested-memory topology whose NUMA node 1 and PUs 2-3 were disallowed, exported and reloaded without
+                               # INCLUDE_DISALLOWED: the library dropped them, complete sets larger than the sets
 ]
+FAM_EXTRA = {"mscache": ["filter 0 15 0"]}          # load lines every behaviour of the family gets
 ALL_OPS = ["restrict", "insert_misc", "group", "group_ns", "group_obj", "group_free", "allow", "add_info", "set_subtype", "refresh",
            "dist_add", "dist_remove", "memattr", "cpukind", "cpukind_info"]
 STORE_OPS = ["restrict", "dist_add", "dist_remove", "memattr", "cpukind", "cpukind_info", "insert_misc", "add_info", "set_subtype", "group"]   # C05: what fills the stores, then a restrict
@@ -26,10 +31,26 @@ LOADCFG = [
 ]
 
 
+def source_line(ctx, name, desc):
+    return "xml 0 " + ctx.path("c02-%s.xml" % name) if desc == "XML" else "synthetic 0 " + desc
+
+
 def prepass(ctx, exe):
+    # XML-sourced families are generated first
+    c08.prepass(ctx, exe)
+    import shutil
+    shutil.copy(c08.make_offline_xml(ctx, "sym"), ctx.path("c02-offline.xml"))
+    gen = ["reset 1", "init 0", "synthetic 0 [numa] pack:2 [numa] core:2 pu:2", "flags 0 1", "load 0", "allow 0 4 0-1,4-7 0,2",
+           "export_xml 0 %s 0" % ctx.path("c02-disdrop.xml"), "destroy 0"]
+    bf = ctx.path("prepass-gen.beh")
+    open(bf, "w").write("\n".join(gen) + "\n")
+    ctx.record(exe, bf, bf + ".ndjson")
+    for n in ("offline", "disdrop"):
+        if not os.path.exists(ctx.path("c02-%s.xml" % n)):
+            raise vlib.Infra("family document c02-%s.xml was not generated" % n)
     lines = []
     for name, desc in FAMS:
-        lines += ["reset 1", "init 0", "synthetic 0 " + desc, "load 0", "destroy 0"]
+        lines += ["reset 1", "init 0", source_line(ctx, name, desc)] + FAM_EXTRA.get(name, []) + ["load 0", "destroy 0"]
     bf = ctx.path("prepass.beh")
     open(bf, "w").write("\n".join(lines) + "\n")
     tf = ctx.path("prepass.ndjson")
@@ -88,7 +109,7 @@ def mc_module(info, choices, rflags):
 
 def mc_cfg(maxsteps, two, nstripes, stripe, simlen, bfs, ops="GOpsAll", lean=False):
     s = ("SPECIFICATION Spec\nCONSTANTS\n  PUs <- GPUs\n  Nodes <- GNodes\n  NodeCpus <- GNodeCpus\n  SetChoices <- GSets\n  RestrictFlags <- GRFlags\n  Tops <- GTops\n  ShapePUs <- GShapePUs\n  Ops <- %s\n  Lean = %s\n"
-         "  Objs = 6\n  MaxSteps = %d\n  TwoSlots = %s\n  NStripes = %d\n  Stripe = %d\n  SimLen = %d\nVIEW StateView\nCHECK_DEADLOCK FALSE\n"
+         "  Objs = 7\n  MaxSteps = %d\n  TwoSlots = %s\n  NStripes = %d\n  Stripe = %d\n  SimLen = %d\nVIEW StateView\nCHECK_DEADLOCK FALSE\n"
          % (ops, "TRUE" if lean else "FALSE", maxsteps, "TRUE" if two else "FALSE", nstripes, stripe, simlen))
     if bfs:
         s += "INVARIANTS NeverEmpty CopyWithinOriginal\nACTION_CONSTRAINT EmitEdge\n"
@@ -101,8 +122,8 @@ def anchors(info):
     g = info["gps"]
     d1 = info["depth1"]
     pick = lambda l, i: l[i] if len(l) > i else l[-1]
-    # root, second child of the root, third core, second PU, first NUMA node, first child of the root
-    return [g[0][0], pick(d1, 1), pick(g[3], 2), pick(g[4], 1), g[14][0], d1[0]]
+    # root, second child of the root, third core, second PU, first NUMA node, first child of the root, first memory-side cache (else last NUMA node)
+    return [g[0][0], pick(d1, 1), pick(g[3], 2), pick(g[4], 1), g[14][0], d1[0], g[15][0] if g.get(15) else g[14][-1]]
 
 
 def dist_objs(info, shape):
@@ -229,7 +250,11 @@ def run_generic(ctx, two_slots, replay=None):
     env = {"HWV_LEAKCHECK": "1"}          # LeakSanitizer after every behaviour: a leak is an event no specification action accepts
     replay_fn = c01.make_replay(ctx, exe, env=env)
     if replay:
-        rej = replay_fn(open(replay).read())
+        text = open(replay).read()
+        if re.search(r"xml 0 \S*hwloc-verif", text):
+            prepass(ctx, exe)                        # regenerates the XML-sourced families in this run's scratch directory
+            text = c01.rebase_paths(ctx, text)
+        rej = replay_fn(text)
         for r in rej:
             vlib.log("rejected event:", r["line"][:1500])
             print("VIOLATION property=%s replay=%s" % (prop, replay))
@@ -241,7 +266,10 @@ def run_generic(ctx, two_slots, replay=None):
     info = prepass(ctx, exe)
     rflags = [0, 1, 2, 6, 8, 24, 26, 3, 9, 16, 32] if thorough else [0, 1, 6, 8, 24, 9]
     behs = []
-    fams = FAMS if thorough else [FAMS[2], FAMS[4]]
+    # quick: nested memory, Group level with permuted NUMA indexes; a seed-chosen one of the memory-side cache / offline / disallowed families
+    fams = FAMS if thorough else [FAMS[2], FAMS[4], FAMS[5 + ctx.seed % 3]]
+    if os.environ.get("HWV_C02_FAMILIES"):
+        fams = [f for f in FAMS if f[0] in os.environ["HWV_C02_FAMILIES"].split(",")]
     for name, desc in fams:
         choices = set_choices(info[name])
         gen = [("MC_TopoOps_gen.tla", mc_module(info[name], choices, rflags))]
@@ -274,14 +302,14 @@ def run_generic(ctx, two_slots, replay=None):
             cname, clines = cfgs[k % len(cfgs)] if not thorough else cfgs[rng.randrange(len(cfgs))]
             # every other behaviour also queries the stores (distances, memory attributes, CPU kinds) after each call: the queries refresh cached
             # state inside the library, so both regimes are run; with them the dup relation compares the stores of both copies too
-            lines = ["reset 2", "option xmldigest 1"] + (["option stores 1"] if k % 2 else []) + ["init 0", "synthetic 0 " + desc] + clines + ["load 0"] + render(h, info[name], choices)
+            lines = ["reset 2", "option xmldigest 1"] + (["option stores 1"] if k % 2 else []) + ["init 0", source_line(ctx, name, desc)] + FAM_EXTRA.get(name, []) + clines + ["load 0"] + render(h, info[name], choices)
             behs.append("\n".join(lines) + "\n")
             # a call that fills a store followed by a restrict or a dup is also run on a topology loaded with the NO_* flags (where only
             # application-added structures exist), with the stores queried after every call
             names = [x[0] for x in h]
             fill = [i for i, n in enumerate(names) if n in ("dist_add", "memattr", "cpukind")]
             if cname != "nostores" and fill and any(n in ("restrict", "dup") for n in names[fill[0] + 1:]) and (thorough or len(h) <= 3):
-                lines = ["reset 2", "option xmldigest 1", "option stores 1", "init 0", "synthetic 0 " + desc] + dict(LOADCFG)["nostores"] + ["load 0"] + render(h, info[name], choices)
+                lines = ["reset 2", "option xmldigest 1", "option stores 1", "init 0", source_line(ctx, name, desc)] + FAM_EXTRA.get(name, []) + dict(LOADCFG)["nostores"] + ["load 0"] + render(h, info[name], choices)
                 behs.append("\n".join(lines) + "\n")
     ctx.samples = [behs[0], behs[len(behs) // 2], behs[-1]]
     bf = ctx.path("behaviours.txt")
